@@ -162,6 +162,11 @@ class AWSElastiCacheHashClient(HashClient):
         """
         old_clients = self.clients.copy()
         self.clients.clear()
+        # Rotation membership lives in the hasher (and in the failover
+        # bookkeeping), not in self.clients: start again from the advertised list.
+        self.hasher = type(self.hasher)()
+        self._failed_clients.clear()
+        self._dead_clients.clear()
 
         for server in self._get_nodes_list():
             self.add_server(normalize_server_spec(server))
